@@ -8,8 +8,9 @@
    T?, open lists [T...], fixed-shape lists [T1, .., Tn], map[K, V], function types, aliases, classes as
    opaque names.  Outside: generics (untyped parameters), `Self`, modules, callback wrappers.
 
-   `fixed` selects the version of the code: false = pinned tree, true = after
-   /verif/fixes/c02-mixed-list-length.diff (fixed-shape lists of different lengths are different types).
+   `fixed` selects the version of the code: false = without, true = with
+   /verif/fixes/c02-mixed-list-length.diff (fixed-shape lists of different lengths are different types);
+   both follow /repo 4ab7445 (two list types skip the `==` shortcut of eq_complex).
 
    Recursion is on explicit fuel (`==` and eq_complex are mutually recursive and eq_complex swaps its
    arguments in one arm); `None` = out of fuel, which every theorem excludes and `cmp_fuel` shows never
@@ -50,6 +51,7 @@ Definition is_nil_ty (t : ty) : bool := match t with TNil => true | _ => false e
 Definition get_opt (t : ty) : option ty := match t with TOpt x => Some x | _ => None end.
 Definition is_optional (t : ty) : bool := match t with TNil | TOpt _ => true | _ => false end.
 Definition is_str (t : ty) : bool := match t with TNat KStr _ => true | _ => false end.
+Definition is_list_ty (t : ty) : bool := match t with TOpen _ | TMixed _ => true | _ => false end.
 
 Definition oand (a b : option bool) : option bool :=
   match a, b with Some x, Some y => Some (x && y) | _, _ => None end.
@@ -108,7 +110,10 @@ Fixpoint cmp (fixed : bool) (fuel : nat) (md : option flags) (t u : ty) {struct 
     | Some f =>
         let lhs := strip t in
         let rhs := strip u in
-        match teq lhs rhs with
+        (* `!both_lists && lhs == rhs` (since /repo 4ab7445): two list types never take the `==` shortcut --
+           which for lists is ListType::eq, i.e. the list arms with CLASSLESS flags -- but go straight to the
+           list arms below with the CALLER's flags (so under sig_check `[int?...]` no longer equals `[int...]`) *)
+        match (if is_list_ty lhs && is_list_ty rhs then Some false else teq lhs rhs) with
         | None => None
         | Some true => Some (if force_rhs f then negb (is_optional rhs) else true)
         | Some false =>
